@@ -352,7 +352,8 @@ def run_and_validate(chk, groups, name, exe=None, design=None, shards=4):
         if e["op"] == "fetch":
             chk.nontrivial(["fetch", [(h["path"], h["resp"], h["impl"]) for h in e["chain"]], e["flags"], e["mode"], e["rc"] == 0, len(e["files"])])
         else:
-            chk.nontrivial(["name", name_class(e["raw"], None)[:3], e["direct_has"], e["piped_has"], e["direct"] == e["raw"]])
+            chk.nontrivial(["name", name_class(e["raw"], None)[:3], e["direct_has"], e["piped_has"], e["direct"] == e["raw"], e["piped"] == e["direct"],
+                            min(len(e["raw"]), 6) if len(e["raw"]) <= 255 else 256, len(e["direct"]) == 255])
     for e, ln in list(zip(events, lines))[:2] + [(e, ln) for e, ln in zip(events, lines) if e["op"] == "fetch" and e["rc"] != 0][:2]:
         chk.sample({"source": label_of[ln], "case": ln[:300], "rc": e.get("rc"), "err": e.get("err"),
                     "files": [{"rel": bytes(f["rel"]).decode("latin-1"), "matches_manifest_hash": f["dig"] == e["want"]} for f in e.get("files", [])] if e["op"] == "fetch"
